@@ -63,6 +63,11 @@ pub fn idle_lines() -> Vec<&'static str> {
         " ",
         "PRINT 1\nPRINT 2",
         "INPUT A(2)",
+        // not-a-number and infinity as operands (from arithmetic or from a reply)
+        "X=-1^.5: Y=10^308*10",
+        "PRINT X<1;X=X;X<>X;Y>X;A(X)",
+        "INPUT X",
+        "FOR X=X TO Y STEP X",
     ]
 }
 
@@ -70,7 +75,7 @@ pub fn alphabet() -> Vec<Ev> {
     let mut a: Vec<Ev> = idle_lines().into_iter().map(|l| Ev::Line(l.to_string())).collect();
     a.push(Ev::Cont);
     a.push(Ev::Break);
-    for r in ["5", "x", "", "\"", "1,2", "é:"] {
+    for r in ["5", "x", "", "\"", "1,2", "é:", "nan", "-inf"] {
         a.push(Ev::Input(r.to_string()));
     }
     a.push(Ev::Replace);
@@ -118,9 +123,35 @@ pub fn check_transition(t: &Transition, s: &mut Sess) -> Vec<Violation> {
                         format!("error rendering panicked {}", short_panic(&p)),
                         format!("rendering error {} panicked: {}", k, p),
                     )),
-                    Ok((text, _caret)) => {
+                    Ok((text, caret)) => {
                         if text.is_empty() {
                             out.push(mk("empty error text".into(), format!("error {} renders as empty text", k)));
+                        }
+                        // the rendering is the offending source line plus a pointer under it
+                        let pointer_ok = caret.len() == 2 && {
+                            let p = &caret[1];
+                            let t = p.trim_start_matches(' ');
+                            !t.is_empty() && t.chars().all(|c| c == '^') && p.chars().count() <= caret[0].chars().count().max(1)
+                        };
+                        let is_tok = k.contains("Tokenization");
+                        // CONT is refused by the command processor: there is no statement to point at
+                        let command_level = caret.is_empty() && k == "CannotContinue";
+                        if command_level {
+                        } else if !pointer_ok {
+                            out.push(mk(
+                                format!("error {} is not rendered as a source line plus a caret", k.split('(').next().unwrap_or(k)),
+                                format!("error {} after {:?} renders as {:?}", k, t.ev, caret),
+                            ));
+                        } else if is_tok {
+                            // a line that does not tokenize is not part of any program: the line shown
+                            // is the one just entered, whatever happened before
+                            let entered = line.clone().unwrap_or_default();
+                            if caret[0] != entered || *t.result != CallResult::Err(k.clone(), None) {
+                                out.push(mk(
+                                    "tokenization error not attributed to the line just entered".into(),
+                                    format!("entering {:?} gave {:?}, rendered as {:?}", entered, t.result, caret),
+                                ));
+                            }
                         }
                     }
                 }
@@ -169,7 +200,7 @@ fn seeded_roots() -> Vec<Vec<Ev>> {
 fn atoms() -> Vec<&'static str> {
     vec![
         "PRINT", "INPUT", "IF", "THEN", "ELSE", "GOTO", "FOR", "NEXT", "X", "A$", "(", ")", ",",
-        "=", "<", "12", ".", "1.5.", "\"", "é", "%", " ", ":", "REM", "DATA", "DEF", "FNA", "-",
+        "=", "<", "12", ".", "1.5.", "\"", "é", "%", " ", ":", "REM", "DATA", "DEF", "FNA", "-", "\u{a0}", "\u{ff12}", "\u{c}",
     ]
 }
 
